@@ -20,6 +20,7 @@ import (
 
 	"verif/harness/afmref"
 	"verif/harness/ev"
+	"verif/harness/iofault"
 	"verif/harness/t1gen"
 )
 
@@ -227,12 +228,30 @@ type metricsCase struct {
 	Layout []byte       `json:"layout,omitempty"` // (b): the text fed to the reader
 }
 
+// writeVia writes m into buf through a writer whose concrete type is a
+// function of the value (bytes.Buffer, a writer without extra methods, a
+// small bufio.Writer ...): a writer must not depend on methods beyond Write.
+func writeVia(m *afm.Metrics, buf *bytes.Buffer) error {
+	kind := iofault.WriterKinds[(len(m.Glyphs)+3*len(m.Kern))%len(iofault.WriterKinds)]
+	w, done := iofault.NewWriter(kind, buf)
+	if err := m.Write(w); err != nil {
+		return err
+	}
+	return done()
+}
+
+// readVia reads an AFM text behind a reader whose concrete type is a function
+// of the text.
+func readVia(data []byte) (*afm.Metrics, error) {
+	return afm.Read(iofault.NewReader(iofault.ReaderKinds[len(data)%len(iofault.ReaderKinds)], data))
+}
+
 func checkOwn(c *metricsCase) string {
 	var buf bytes.Buffer
-	if err := c.M.Write(&buf); err != nil {
+	if err := writeVia(c.M, &buf); err != nil {
 		return "Write fails: " + err.Error()
 	}
-	got, err := afm.Read(bytes.NewReader(buf.Bytes()))
+	got, err := readVia(buf.Bytes())
 	if err != nil {
 		return "Read(Write(M)) fails: " + err.Error()
 	}
@@ -243,7 +262,7 @@ func checkOwn(c *metricsCase) string {
 }
 
 func checkLayout(c *metricsCase) string {
-	got, err := afm.Read(bytes.NewReader(c.Layout))
+	got, err := readVia(c.Layout)
 	if err != nil {
 		return "Read fails on an independently laid out file: " + err.Error()
 	}
@@ -341,7 +360,7 @@ func closeTo(a, b *afm.Metrics) string {
 }
 
 func checkText(c *textCase) (string, string) {
-	f1, err := afm.Read(bytes.NewReader(c.Text))
+	f1, err := readVia(c.Text)
 	if err != nil {
 		return "", "rejected"
 	}
@@ -349,10 +368,10 @@ func checkText(c *textCase) (string, string) {
 		return "", "non-finite or huge number"
 	}
 	var buf bytes.Buffer
-	if err := f1.Write(&buf); err != nil {
+	if err := writeVia(f1, &buf); err != nil {
 		return "writing an accepted file fails: " + err.Error(), ""
 	}
-	f2, err := afm.Read(bytes.NewReader(buf.Bytes()))
+	f2, err := readVia(buf.Bytes())
 	if err != nil {
 		return "re-reading fails: " + err.Error(), ""
 	}
@@ -360,10 +379,10 @@ func checkText(c *textCase) (string, string) {
 		return "first cycle: " + msg, ""
 	}
 	buf.Reset()
-	if err := f2.Write(&buf); err != nil {
+	if err := writeVia(f2, &buf); err != nil {
 		return "second write fails: " + err.Error(), ""
 	}
-	f3, err := afm.Read(bytes.NewReader(buf.Bytes()))
+	f3, err := readVia(buf.Bytes())
 	if err != nil {
 		return "second re-read fails: " + err.Error(), ""
 	}
